@@ -151,7 +151,7 @@ def specStep (s : St) (op : Op) : Option (M St) :=
       | _, _ => specRun s (replaceStr d w))
   | none =>
   match op with
-  | .sweep => some (specSweep s (List.range nCalls))
+  | .sweep => some (specSweep s (sweepOrder s))
   | .err _ _ => some (pure s)
   | .efun _ _ _ => some (pure s)
   | .rest _ => some (pure s)
